@@ -217,6 +217,46 @@ func ruleDir(p *Prog, r *Report, c dirCfg) {
 		}, 0)
 	}
 	csFn := p.Func(c.pkg, "", c.checksum)
+	// a word of the table's own content (binary.BigEndian.UintN(table.Content[k:]))
+	isContentWord := func(v ssa.Value) bool {
+		cl, ok := stripConv(v).(*ssa.Call)
+		if !ok {
+			return false
+		}
+		name, cc := binaryCall(cl)
+		if cc == nil || widthOf(name) == 0 || name[0] != 'U' {
+			return false
+		}
+		a := cc.Args[len(cc.Args)-1]
+		if sl, ok := a.(*ssa.Slice); ok {
+			a = sl.X
+		}
+		return isFieldOfTable(a, "Content")
+	}
+	// the checksum of the table's content, possibly corrected by words of that same content (the 'head' rule)
+	var isChecksumVal func(v ssa.Value, depth int) bool
+	isChecksumVal = func(v ssa.Value, depth int) bool {
+		v = stripConv(v)
+		if depth > 6 {
+			return false
+		}
+		switch x := v.(type) {
+		case *ssa.Call:
+			return x.Common().StaticCallee() == csFn && isFieldOfTable(x.Common().Args[0], "Content")
+		case *ssa.Phi:
+			for _, e := range x.Edges {
+				if !isChecksumVal(e, depth+1) {
+					return false
+				}
+			}
+			return len(x.Edges) > 0
+		case *ssa.BinOp:
+			if x.Op == token.SUB || x.Op == token.ADD {
+				return isChecksumVal(x.X, depth+1) && isContentWord(x.Y)
+			}
+		}
+		return false
+	}
 	role := func(v ssa.Value) string {
 		v = stripConv(v)
 		if cl, ok := v.(*ssa.Call); ok && cl.Common().StaticCallee() == csFn {
@@ -224,6 +264,9 @@ func ruleDir(p *Prog, r *Report, c dirCfg) {
 				return "CheckSum"
 			}
 			return "checksum of something else"
+		}
+		if isChecksumVal(v, 0) {
+			return "CheckSum"
 		}
 		if ph, ok := v.(*ssa.Phi); ok {
 			// running offset: one edge adds len(Content) to the phi itself
